@@ -655,6 +655,11 @@ class Analysis:
                 writes.extend(self.P.call_effects(self.f, x))
         top = sk(e)
         k = top.get("k")
+        # an assignment nested in a condition: `(n = f(..)) <= 0`
+        for x in own:
+            if x is not top and x.get("k") == "Bin" and x["op"] == "=" and sk(x["a"][0]).get("k") == "Ref" \
+                    and sk(x["a"][1]).get("k") == "Call":
+                gens.append(("assign", sk(x["a"][0]), sk(x["a"][1])))
         if k == "Call":
             gens.append(("call", top))
         elif k == "Bin" and top["op"] == "=":
